@@ -72,8 +72,16 @@ class LoadFault(OSError):
     """the transient failure injected into load()"""
 
 
+class LoadAbort(BaseException):
+    """a load() interrupted the way KeyboardInterrupt / SystemExit / CancelledError interrupt it: not an Exception"""
+
+
+FAULTS = (LoadFault, LoadAbort)
+
+
 class LogHandle(Handle):
-    def __init__(self, name, kind, fail_at=0):
+    def __init__(self, name, kind, fail_at=0, fault_cls=LoadFault):
+        self.fault_cls = fault_cls
         self.name = name
         self.kind = kind
         self.events = []            # ('load', value) | ('clear',) | ('fail',)
@@ -84,7 +92,7 @@ class LogHandle(Handle):
         self.attempts += 1
         if self.attempts == self.fail_at:
             self.events.append(('fail',))
-            raise LoadFault('resource temporarily unavailable (load attempt %d)' % self.attempts)
+            raise self.fault_cls('resource temporarily unavailable (load attempt %d)' % self.attempts)
         v = make(self.kind)
         self.events.append(('load', v))
         return v
@@ -145,23 +153,40 @@ def absorb(sp, t, when):
     return nl, nc
 
 
-def h_access(sp, L=3, n_handles=2, kinds=KINDS, faults=0, retake=False, flavours=('plain',), second_owner=False):
+def h_access(sp, L=3, n_handles=2, kinds=KINDS, faults=0, retake=False, flavours=('plain',), second_owner=False,
+             fault_kinds=('error',), deep=False):
     kind = sp.pick(list(kinds), 'kind')
     # load fault: the load attempt number `fail_at` (solver-chosen in 1..faults) of every handle raises once
     fail_at = sp.choose(faults, 'fail_at') + 1 if faults else 0
+    # what interrupts the load: an ordinary error (OSError subclass) or an abort that is a BaseException but not an
+    # Exception (the shape of KeyboardInterrupt, SystemExit, asyncio.CancelledError)
+    fault_kind = sp.pick(list(fault_kinds), 'fault_kind') if faults else 'error'
+    fault_cls = LoadAbort if fault_kind == 'abort' else LoadFault
     flavour = sp.pick(list(flavours), 'flavour')       # instance flavour of the handle objects and of the maps
     HandleCls = flavoured(LogHandle, flavour)
     m = flavoured(ResourceMap, flavour)()
     if flavour != 'plain':
         sp.cover('flavour-' + flavour)
     hs = []
-    if n_handles >= 2:
-        h0 = HandleCls('h0@_k', kind, fail_at)
-        m['_k'] = h0
-        hs.append(h0)
-    h1 = HandleCls('h1@a/k', kind, fail_at)
-    m['a/k'] = h1
-    hs.append(h1)
+    if deep:
+        # handles at the third and fourth nesting level; the relative key 'a/b/k' names h1 from the root and h0
+        # from the sub-map 'z' (two maps with the same layout below them)
+        if n_handles >= 2:
+            h0 = HandleCls('h0@z/a/b/k', kind, fail_at, fault_cls)
+            m['z/a/b/k'] = h0
+            hs.append(h0)
+        h1 = HandleCls('h1@a/b/k', kind, fail_at, fault_cls)
+        m['a/b/k'] = h1
+        hs.append(h1)
+        sp.cover('deep-handles')
+    else:
+        if n_handles >= 2:
+            h0 = HandleCls('h0@_k', kind, fail_at, fault_cls)
+            m['_k'] = h0
+            hs.append(h0)
+        h1 = HandleCls('h1@a/k', kind, fail_at, fault_cls)
+        m['a/k'] = h1
+        hs.append(h1)
     m2 = st2 = None
     if second_owner:
         # the same handle OBJECT stored in a second map after it already belongs to the first one
@@ -171,9 +196,23 @@ def h_access(sp, L=3, n_handles=2, kinds=KINDS, faults=0, retake=False, flavours
     st = m.get_static_map()
     tracks = [Track(h) for h in hs]
     loop = desper.SimpleLoop() if kind == 'world' else None
-    sp.note('handle objects: %s; loaded value kind: %s%s' % (flavour, kind, ', load attempt %d raises' % fail_at if fail_at else ''))
+    sp.note('handle objects: %s; loaded value kind: %s%s' % (flavour, kind, ', load attempt %d raises %s' % (fail_at, fault_cls.__name__) if fail_at else ''))
 
     def paths_for(h):
+        if deep and h is h1:
+            return [('h()', lambda: h()),
+                    ("m['a/b/k']", lambda: m['a/b/k']),
+                    ("m['a']['b/k']", lambda: m['a']['b/k']),
+                    ("m['a/b']['k']", lambda: m['a/b']['k']),
+                    ('static.a.b.k', lambda: st.a.b.k),
+                    ("static['a']['b']['k']", lambda: st['a']['b']['k'])]
+        if deep:
+            return [('h()', lambda: h()),
+                    ("m['z/a/b/k']", lambda: m['z/a/b/k']),
+                    ("m['z']['a/b/k']", lambda: m['z']['a/b/k']),
+                    ("m['z/a']['b/k']", lambda: m['z/a']['b/k']),
+                    ('static.z.a.b.k', lambda: st.z.a.b.k),
+                    ("m.get_static_map()['z']['a']['b']['k']", lambda: m.get_static_map()['z']['a']['b']['k'])]
         if h is h1:
             return [('h()', lambda: h()),
                     ("m['a/k']", lambda: m['a/k']),
@@ -215,7 +254,7 @@ def h_access(sp, L=3, n_handles=2, kinds=KINDS, faults=0, retake=False, flavours
                 try:
                     r = fn()
                     fault = None
-                except LoadFault as ex:
+                except FAULTS as ex:
                     fault = ex
                 nl, nc = absorb(sp, t, when)
                 if fault is not None or t.nf:
@@ -228,12 +267,16 @@ def h_access(sp, L=3, n_handles=2, kinds=KINDS, faults=0, retake=False, flavours
                                  when, before, name, t.nf, nl))
                     t.after_fault = True
                     sp.cover('load-fault')
+                    if fault_kind == 'abort':
+                        sp.cover('load-abort')
                     if t.loads:
                         sp.cover('load-fault-after-clear')
                     raise _Skip()
                 if t.after_fault:
                     t.after_fault = False
                     sp.cover('access-after-fault')
+                    if fault_kind == 'abort':
+                        sp.cover('access-after-abort')
                     if 'static' in name:
                         sp.cover('static-access-after-fault')
                 sp.check(nc == 0, 'cached-predicts',
@@ -286,7 +329,7 @@ def h_access(sp, L=3, n_handles=2, kinds=KINDS, faults=0, retake=False, flavours
                 try:
                     loop.switch(h, clear_current=cc, clear_next=cn)
                     fault = None
-                except LoadFault as ex:
+                except FAULTS as ex:
                     fault = ex
                 nl, nc = absorb(sp, t, when)
                 if fault is not None or t.nf:
@@ -334,6 +377,10 @@ HARNESSES = {
 _FAULT_REQ = ['load-fault', 'access-after-fault', 'static-access-after-fault', 'load-fault-after-clear',
               'cached-hit', 'reload-after-clear']
 
+_ABORT_REQ = ['load-abort', 'access-after-abort']
+
+_DEEP_REQ = ['deep-handles', 'cached-hit', 'reload-after-clear', 'static-access', 'clear-cached']
+
 _FLAV_REQ = ['flavour-falsy', 'flavour-empty', 'flavour-equal', 'cached-hit', 'reload-after-clear', 'static-access',
              'clear-cached', 'switch', 'switch-clears']
 _SECOND_REQ = ['second-owner-access', 'second-owner-cached-hit', 'second-owner-load', 'second-owner-reload-after-clear',
@@ -344,21 +391,27 @@ _RETAKE_REQ = ['retake', 'retake-while-cached', 'kept-static-taken-while-cached'
 TIERS = {
     'quick': [('access', dict(L=3, n_handles=2)),
               ('access', dict(L=4, n_handles=1, kinds=['None', '[]'], retake=True), {'required': _RETAKE_REQ}),
-              ('access', dict(L=4, n_handles=1, kinds=['[]'], faults=2), {'required': _FAULT_REQ}),
+              ('access', dict(L=4, n_handles=1, kinds=['[]'], faults=2, fault_kinds=('error', 'abort')),
+               {'required': _FAULT_REQ + _ABORT_REQ}),
               ('access', dict(L=3, n_handles=1, kinds=['world'], faults=2),
                {'required': _FAULT_REQ[:2] + ['switch-load-fault']}),
               ('access', dict(L=3, n_handles=1, kinds=['[]', 'world'], flavours=FLAVOURS), {'required': _FLAV_REQ}),
-              ('access', dict(L=3, n_handles=1, kinds=['None', '[]'], second_owner=True), {'required': _SECOND_REQ})],
+              ('access', dict(L=3, n_handles=1, kinds=['None', '[]'], second_owner=True), {'required': _SECOND_REQ}),
+              ('access', dict(L=4, n_handles=1, kinds=['[]'], deep=True), {'required': _DEEP_REQ}),
+              ('access', dict(L=3, n_handles=2, kinds=['[]'], deep=True), {'required': _DEEP_REQ})],
     'thorough': [('access', dict(L=5, n_handles=1, retake=True),
                   {'required': _RETAKE_REQ + ['switch', 'switch-clears', 'cached-hit-falsy']}),
                  ('access', dict(L=4, n_handles=2)),
                  ('access', dict(L=4, n_handles=2, kinds=['[]'], retake=True), {'required': _RETAKE_REQ}),
-                 ('access', dict(L=4, n_handles=1, faults=3), {'required': _FAULT_REQ + ['switch-load-fault']}),
+                 ('access', dict(L=4, n_handles=1, faults=3, fault_kinds=('error', 'abort')),
+                  {'required': _FAULT_REQ + _ABORT_REQ + ['switch-load-fault']}),
                  ('access', dict(L=3, n_handles=2, faults=2), {'required': _FAULT_REQ + ['switch-load-fault']}),
                  ('access', dict(L=4, n_handles=1, flavours=FLAVOURS), {'required': _FLAV_REQ + ['cached-hit-falsy']}),
                  ('access', dict(L=3, n_handles=2, kinds=['[]', 'world'], flavours=FLAVOURS), {'required': _FLAV_REQ}),
                  ('access', dict(L=4, n_handles=1, kinds=['None', '[]', 'world'], second_owner=True),
-                  {'required': _SECOND_REQ})],
+                  {'required': _SECOND_REQ}),
+                 ('access', dict(L=4, n_handles=2, kinds=['None', '[]'], deep=True), {'required': _DEEP_REQ}),
+                 ('access', dict(L=5, n_handles=1, kinds=['[]'], deep=True), {'required': _DEEP_REQ})],
 }
 BUDGET_S = {'quick': 300, 'thorough': 1500}
 
@@ -374,10 +427,10 @@ RULE = ('one evaluation = one feasible path of the decision tree (distinct histo
 BOUNDS = {
     'quick': 'value kinds None,0,\'\',[],object with raising __eq__/__bool__/__len__,7,World; 2 handles '
              '(_k and a/k); 6-7 access paths per handle + clear (+4 switch variants for World); all histories of 3 ops; '
-             'kept snapshot re-taken at any point: 1 handle, kinds None,[], 4 ops; load faults (load attempt 1 or 2 raises once): 1 handle, kind [] with 4 ops, kind World with 3 ops',
+             'kept snapshot re-taken at any point: 1 handle, kinds None,[], 4 ops; load faults (load attempt 1 or 2 raises once; error or non-Exception abort for kind []): 1 handle, kind [] with 4 ops, kind World with 3 ops; deep layout (h1 at a/b/k, h0 at z/a/b/k, 6 access paths each, kind []): 1 handle 4 ops, 2 handles 3 ops',
     'thorough': 'same kinds; 1 handle (a/k): all histories of 5 ops incl. re-taking the kept snapshot; 2 handles: all '
                 'histories of 4 ops (kind [] also with re-take); load faults: '
-                'all kinds, 1 handle, attempt 1..3 raises, 4 ops; 2 handles, attempt 1..2, 3 ops',
+                'all kinds, 1 handle, attempt 1..3 raises (error or non-Exception abort), 4 ops; 2 handles, attempt 1..2, 3 ops; deep layout: 2 handles 4 ops (kinds None, []), 1 handle 5 ops',
 }
 ASSUMPTIONS = [
     'second-owner entries: the same Handle object is stored in a second map after it already belongs to the first; '
@@ -386,8 +439,9 @@ ASSUMPTIONS = [
     'empty (__len__ 0) or equal to everything; the oracle is unchanged and only compares identities',
     'load fault entries: a load() that raises has loaded nothing, so the exception must reach the accessor (there is '
     'no object an access could return, and a silent retry would be a second load), the handle is not cached '
-    'afterwards and the next access loads afresh and returns that object; the fault is an OSError subclass raised '
-    'once, at a solver-chosen load attempt',
+    'afterwards and the next access loads afresh and returns that object; the fault is raised once, at a solver-chosen '
+    'load attempt, and is either an OSError subclass or (fault_kinds) a BaseException subclass that is not an Exception '
+    '(the shape of KeyboardInterrupt / SystemExit / CancelledError interrupting a loader)',
     'load()/clear() invocations are observed by overriding them in a Handle subclass (the overrides defer to '
     'the base class); an implementation that invalidated its cache without calling clear() would be reported',
     'loading a handle as a side effect of accessing a different one is accepted (the statement does not forbid it)',
